@@ -53,6 +53,13 @@ def build(cfg):
     elif cfg.get('problem') == 'vdp':
         from pySDC.implementations.problem_classes.Van_der_Pol_implicit import vanderpol
         pclass, pparams = vanderpol, dict(mu=2.0, newton_tol=1e-12, newton_maxiter=50, u0=np.array([2.0, 0.0]))
+    if cfg.get('dae'):
+        import pySDC.projects.DAE.sweepers.semiImplicitDAE as sdae
+        import pySDC.projects.DAE.sweepers.fullyImplicitDAE as fdae
+        from pySDC.projects.DAE.problems.discontinuousTestDAE import DiscontinuousTestDAE
+        sweeper = getattr(sdae, cfg['dae'], None) or getattr(fdae, cfg['dae'])
+        pclass, pparams = DiscontinuousTestDAE, dict(newton_tol=1e-9)
+        swp = dict(num_nodes=2, quad_type='RADAU-RIGHT', QI='IE')
     if cfg.get('sweeper'):
         import pySDC.implementations.sweeper_classes.Runge_Kutta as rk
         sweeper = getattr(rk, cfg['sweeper'])
@@ -82,7 +89,11 @@ def build(cfg):
             desc['space_transfer_params'] = dict(rorder=2, iorder=2)
         else:
             desc['space_transfer_class'] = IdentitySpaceTransfer
-    cp = dict(mssdc_jac=cfg['JAC'], all_to_done=cfg['A2D'], hook_class=[LogSolution, LogStepSize])
+    hooks = [LogSolution, LogStepSize]
+    if cfg.get('log_iter'):
+        from pySDC.implementations.hooks.log_solution import LogSolutionAfterIteration
+        hooks = [LogSolutionAfterIteration] + hooks
+    cp = dict(mssdc_jac=cfg['JAC'], all_to_done=cfg['A2D'], hook_class=hooks)
     if cfg['PRED'] != 'none':
         cp['predict_type'] = cfg['PRED']
     return desc, cp
@@ -90,9 +101,10 @@ def build(cfg):
 
 def run_one(cfg, script, tid=0, default=None):
     desc, cp = build(cfg)
-    rec, out = run_traced(desc, cp, cfg['NP'], lambda P: P.u_exact(0.0), cfg['T0'] * UNIT, cfg['TEND'] * UNIT,
+    t_init = cfg['T0'] * UNIT + (1.0 if cfg.get('dae') else 0.0)
+    rec, out = run_traced(desc, cp, cfg['NP'], lambda P: P.u_exact(t_init), t_init, t_init + (cfg['TEND'] - cfg['T0']) * UNIT,
                           unit=UNIT, script=script, mode='lattice', default=default,
-                          defect_check=not cfg.get('sweeper'))
+                          defect_check=not (cfg.get('sweeper') or cfg.get('dae')))
     script = rec.script[:rec.pos] if rec.script is not None else script
     lines = rec.lines
     if lines and lines[-1]['k'] == 'end':
